@@ -46,7 +46,11 @@ impl Distribution for Pareto {
     type Output = f64;
     /// Samples from the given Pareto distribution using inverse transform sampling.
     fn sample(&self) -> f64 {
-        let u = alea::f64();
+        // the generator is uniform on [0, 1): a draw of exactly 0 has no image under the inverse cdf
+        let mut u = alea::f64();
+        while u == 0. {
+            u = alea::f64();
+        }
         self.minval / u.powf(1. / self.alpha)
     }
 }
